@@ -395,9 +395,26 @@ pub fn tracegen(opts: &Opts) -> i32 {
     // clean close = acknowledgement of everything accepted before it
     if opts.u64("close", 1) == 1 {
         let inv = tracer.next();
+        // "dropped cleanly": Drop cannot return an error, but it reports a final flush it could not
+        // complete (device full, device failing) on stderr; such a drop acknowledges nothing
+        let errpath = format!("{path}.stderr");
+        let saved = unsafe { libc::dup(2) };
+        if let Ok(f) = std::fs::File::create(&errpath) {
+            use std::os::unix::io::AsRawFd;
+            unsafe { libc::dup2(f.as_raw_fd(), 2) };
+        }
         store = None;
+        if saved >= 0 {
+            unsafe {
+                libc::dup2(saved, 2);
+                libc::close(saved);
+            }
+        }
+        let msg = std::fs::read_to_string(&errpath).unwrap_or_default();
+        let _ = std::fs::remove_file(&errpath);
+        let clean = !msg.contains("final write-buffer flush");
         let ret = tracer.next();
-        tracer.note(format!("{inv} CLOSE ret={ret} res=ok"));
+        tracer.note(format!("{inv} CLOSE ret={ret} res={}", if clean { "ok" } else { "unclean" }));
     } else if let Some(s) = store.take() {
         std::mem::forget(s);
     }
@@ -515,7 +532,8 @@ pub fn load_trace(path: &str) -> Option<Trace> {
                 expired: field(&toks, "expired=") == "1",
             }),
             "FLUSH" => evs.push(Ev::Flush { inv: seq, ret: field(&toks, "ret=").parse().ok()?, ok: field(&toks, "res=") == "ok" }),
-            "CLOSE" => evs.push(Ev::Close { inv: seq, ret: field(&toks, "ret=").parse().ok()? }),
+            "CLOSE" if field(&toks, "res=") == "ok" => evs.push(Ev::Close { inv: seq, ret: field(&toks, "ret=").parse().ok()? }),
+            "CLOSE" => {}
             "GET" => evs.push(Ev::Get { inv: seq, key: field(&toks, "key=").to_string(), res: field(&toks, "res=").to_string() }),
             "HEAL" => evs.push(Ev::Heal { seq }),
             _ => {}
@@ -906,7 +924,8 @@ pub fn run(opts: &Opts) -> i32 {
                         "tracegen".into(),
                         format!("path={base}"),
                         format!("seed={}", rng.next() % 1_000_000_007),
-                        format!("blocks={}", rng.pick(&[40u64, 64, 96])),
+                        // tiny devices fill up to their last block (extents and journal entries ending exactly at the end)
+                        format!("blocks={}", rng.pick(&[22u64, 26, 30, 40, 64, 96])),
                         format!("ops={}", rng.range(15, 60)),
                         format!("sync={sync}"),
                         format!("hostile={hostile}"),
